@@ -161,8 +161,83 @@ fn sweep(ctx: &Ctx) {
     ctx.label_n("sweep: width-parametrised component instances", n);
 }
 
+/// Exceptional pairs of the addition law: two (off-curve) addends with
+/// d*x1*x2*y1*y2 = +1 or -1, where a denominator of the law vanishes. Random
+/// independent points never meet this relation, so the pair is constructed.
+#[derive(Debug, Clone, Serialize, Deserialize)]
+pub struct PoleCase {
+    pub x1: Fe,
+    pub y1: Fe,
+    pub x2: Fe,
+    pub positive: bool,
+    /// 0 add, 1 sub, 2 add with the addends exchanged, 3 mul_point by a
+    /// scalar whose double-and-add meets the pair, 4 select_point then add
+    pub op: u8,
+    /// hand the second addend over with this Z (consistent extended form)
+    pub z: Fe,
+}
+
+fn pole_strategy(_t: Tier) -> BoxedStrategy<PoleCase> {
+    (crate::fe::fe_nonzero(), crate::fe::fe_nonzero(), crate::fe::fe_nonzero(), any::<bool>(), 0u8..5, prop_oneof![2 => Just(Fe(F::one())), 1 => crate::fe::fe_nonzero()])
+        .prop_map(|(x1, y1, x2, positive, op, z)| PoleCase { x1, y1, x2, positive, op, z })
+        .boxed()
+}
+
+fn check_pole(ctx: &Ctx, c: &PoleCase) -> PResult {
+    let d = dusk_jubjub::EDWARDS_D;
+    let den = d * c.x1.0 * c.x2.0 * c.y1.0;
+    let Some(inv) = Option::<F>::from(den.invert()) else { return Ok(()) };
+    // sub negates the second addend's x: the pair that meets the pole there
+    // has the opposite sign
+    let mut sign = if c.positive { F::one() } else { -F::one() };
+    if c.op % 5 == 1 {
+        sign = -sign;
+    }
+    let y2 = sign * inv;
+    let p1 = PtSpec { kind: 2, k: Fe(F::zero()), t: 0, x: c.x1, y: c.y1, z: Fe(F::one()) };
+    let mut p2 = PtSpec { kind: 2, k: Fe(F::zero()), t: 0, x: c.x2, y: Fe(y2), z: Fe(F::one()) };
+    let _ = &mut p2;
+    let tp = 21846u16; // pick(., 3) = 1: first typed point after the identity
+    let tq = 43691u16;
+    let mut ops = vec![
+        Op::PointWit(PtSpec::sub(F::from(3u64))),
+        Op::TorsionFree(u16::MAX),
+        Op::PointWit(PtSpec::sub(F::from(5u64))),
+        Op::TorsionFree(u16::MAX),
+    ];
+    match c.op % 5 {
+        0 => ops.push(Op::AddPoint(tp, tq)),
+        1 => ops.push(Op::SubPoint(tp, tq)),
+        2 => ops.push(Op::AddPoint(tq, tp)),
+        3 => ops.push(Op::MulPoint { s: Fe(F::from(3u64)), p: tp }),
+        _ => {
+            ops.push(Op::Wit(Fe(F::one())));
+            ops.push(Op::SelectPoint { bit: u16::MAX, p: 13108, q: 39322 });
+            ops.push(Op::AddPoint(tp, tq));
+        }
+    }
+    let cls = format!("pole pair d*x1*x2*y1*y2 = {} through {}", if c.positive { "+1" } else { "-1" }, ops.last().map(|o| o.name()).unwrap_or(""));
+    ctx.eval(&cls);
+    let a = run(&ops, None, None)?;
+    let b = run(&ops, Some(vec![F::one(), F::from(3u64)]), Some(vec![p1, p2]))?;
+    if let (Ok(la), Ok(lb)) = (&a, &b) {
+        if let Some(dd) = la.first_diff(lb) {
+            return Err(Fail::new(
+                "shape-depends-on-witness:pole-pair",
+                format!("an exceptional pair of the addition law changes the emitted gates: {dd}"),
+            ));
+        }
+    }
+    ctx.nontrivial_json(c);
+    ctx.sample(&cls, || json!({"x1": crate::fe::fe_short(&c.x1.0), "y1": crate::fe::fe_short(&c.y1.0), "x2": crate::fe::fe_short(&c.x2.0), "built": b.is_ok()}));
+    Ok(())
+}
+
 pub fn props() -> Vec<(Box<dyn PropDyn>, u32, u32)> {
-    vec![(Box::new(Prop::new("shape", case_strategy, check).shrink(600)), 20000, 300000)]
+    vec![
+        (Box::new(Prop::new("shape", case_strategy, check).shrink(600)), 20000, 300000),
+        (Box::new(Prop::new("poles", pole_strategy, check_pole).shrink(100)), 1500, 20000),
+    ]
 }
 
 pub fn sweeps(ctx: &Ctx) {
@@ -170,6 +245,6 @@ pub fn sweeps(ctx: &Ctx) {
 }
 
 pub fn describe(ctx: &Ctx) {
-    ctx.rule("cases: sequences of 1..13 component calls with fixed constant parameters (every public component; every const-generic width through generated dispatch tables, all widths exhaustively in the sweep) executed twice: once with the program's own well-formed arguments, once with arbitrary field elements (0, 1, -1, 2^k, 2^k-1, 2^k+1, r_J, r_J+-1, small, random) in every witness slot and malformed points (torsion cosets, raw off-curve pairs, consistent Z != 1, Z = 0, inconsistent T1*T2) in every point slot. Built with debug assertions and overflow checks (checked profile). Oracle: both runs return the identical layout (selectors, wiring, public-input rows, count) or an error; never a panic. non-trivial = both runs built (layouts compared) or the second was refused with an error; distinct by case");
+    ctx.rule("cases: sequences of 1..13 component calls with fixed constant parameters (every public component; every const-generic width through generated dispatch tables, all widths exhaustively in the sweep) executed twice: once with the program's own well-formed arguments, once with arbitrary field elements (0, 1, -1, 2^k, 2^k-1, 2^k+1, r_J, r_J+-1, small, random) in every witness slot and malformed points (torsion cosets, raw off-curve pairs, consistent Z != 1, Z = 0, inconsistent T1*T2) in every point slot. Built with debug assertions and overflow checks (checked profile). Plus constructed exceptional pairs of the addition law (two off-curve addends with d*x1*x2*y1*y2 = +1 / -1, which independent random points never meet) through add / sub / exchanged add / mul_point / select+add. Oracle: both runs return the identical layout (selectors, wiring, public-input rows, count) or an error; never a panic. non-trivial = both runs built (layouts compared) or the second was refused with an error; distinct by case");
     ctx.assume("a panic that aborts the process (not unwinding) would kill the harness and surface as exit != 0 without a VIOLATION line");
 }
